@@ -176,6 +176,8 @@ pub struct Net {
     pub next_id: usize,
     /// every datagram ever put on the wire by a node (the tap)
     pub tap: Vec<Dgram>,
+    /// when each node's transport read a datagram from its socket: (node, time ms, session id, message counter)
+    pub reads: Vec<(usize, u64, u16, u32)>,
     /// datagrams sent to addresses outside the simulated nodes (multicast groups): recorded, delivered nowhere
     pub far: Vec<Dgram>,
     /// slow network sends: (node, ordinal of the send call of that node (0-based), duration in ms) - the call
@@ -268,6 +270,10 @@ impl NetworkReceive for Rx {
     async fn recv_from(&mut self, buffer: &mut [u8]) -> Result<(usize, Address), Error> {
         self.wait_available().await?;
         let (d, a) = self.0.borrow_mut().nodes[self.1].inbox.pop_front().unwrap();
+        if d.len() >= 8 {
+            let rec = (self.1, now_ms(), u16::from_le_bytes([d[1], d[2]]), u32::from_le_bytes([d[4], d[5], d[6], d[7]]));
+            self.0.borrow_mut().reads.push(rec);
+        }
         let len = d.len().min(buffer.len());
         buffer[..len].copy_from_slice(&d[..len]);
         Ok((len, a))
